@@ -13,6 +13,7 @@ import (
 	"hash/fnv"
 	"math/rand"
 	"net/url"
+	"slices"
 	"strconv"
 	"time"
 
@@ -895,8 +896,14 @@ func convertTypes(d *doc, r *schema.Realm) error {
 	}
 	byName := make(map[string]*schema.EnumType)
 	for _, e := range d.Enums {
-		if byName[e.Name] != nil {
-			return fmt.Errorf("duplicate enum %q", e.Name)
+		// Enums that share their name with an enum of another schema are
+		// labeled (and referenced) with their schema name: enum.<schema>.<name>.
+		name := e.Name
+		if e.Qualifier != "" {
+			name = e.Qualifier + "." + e.Name
+		}
+		if byName[name] != nil {
+			return fmt.Errorf("duplicate enum %q", name)
 		}
 		ns, err := specutil.SchemaName(e.Schema)
 		if err != nil {
@@ -908,7 +915,11 @@ func convertTypes(d *doc, r *schema.Realm) error {
 		}
 		e1 := &schema.EnumType{T: e.Name, Schema: es, Values: e.Values}
 		es.AddObjects(e1)
-		byName[e.Name] = e1
+		byName[name] = e1
+		// A qualified enum whose name is not shared is referenced by its name alone.
+		if name != e.Name && !slices.ContainsFunc(d.Enums, func(e2 *enum) bool { return e2 != e && e2.Name == e.Name }) {
+			byName[e.Name] = e1
+		}
 	}
 	for _, t := range d.Tables {
 		for _, c := range t.Columns {
